@@ -19,6 +19,7 @@
     cal.isofast d                   → y m dd      (the calendar-less ISO constructor with its 1900–2100 tables)
     cal.pack y m d ord              → packed value and the four fields read back
     cal.tbl name i                  → table entry (uaq | badi | pastro)
+    cal.dens c                      → 1 when the Persian leap-year density bound holds (c = 6, 7, 8)
     ref.* ops of Calendar/Reference.lean
 -/
 import PyodaModel.Calendar.Core
@@ -122,6 +123,13 @@ def handle (toks : List String) : Option String :=
         let p := packYmdc y m d o
         some (showInts [p, unpackYear p, unpackMonth p, unpackDay p, unpackOrd p])
       | _ => none
+  | ["cal.dens", c] => do
+      -- leap-year density pass of the Persian calendars (evaluated natively; see C01Persian.lean)
+      let n ← c.toNat?
+      if n = 6 then some (showBool (Pers.densOk Pers.leapSimple))
+      else if n = 7 then some (showBool (Pers.densOk Pers.leapArithmetic))
+      else if n = 8 then some (showBool (Pers.densOk Pers.leapAstronomical))
+      else none
   | ["cal.tbl", name, i] => do
       let i ← i.toNat?
       let t ← (if name = "uaq" then some Tables.umAlQuraMonthBits
